@@ -46,6 +46,11 @@ type FnContract struct {
 	Trusted  bool // contract is assumed at call sites but the body is not verified (listed as assumption)
 	NoBody   bool
 	Lets     []Clause // let name = expr (ghost bindings evaluated at entry)
+	IsTable  bool   // table contract: Fn is a dispatcher; clauses are a template for the function it returns for each key
+	KeyName  string // name of the key variable in the template
+	KeyType  string
+	Keys     []int64
+	Consts   map[string]Val // extra constant bindings (instantiated table key)
 	Ghosts   [][2]string // ghost name type: universally quantified ghost integers (fresh symbolic constants)
 	Cases    *Clause  // cases <expr> lo..hi : every post obligation is split into one query per value of expr
 	CaseLo, CaseHi int
@@ -64,7 +69,14 @@ func (fc *FnContract) HasProp(p string) bool {
 	return false
 }
 
+type Pred struct {
+	Name   string
+	Params []string
+	Body   Clause
+}
+
 type ContractDB struct {
+	Preds  map[string]*Pred
 	ByName map[string]*FnContract
 	byFn   map[*ssa.Function]*FnContract
 	Order  []*FnContract
@@ -178,7 +190,7 @@ func parseClause(text string) (Clause, error) {
 }
 
 var keywords = map[string]bool{"func": true, "props": true, "spec": true, "requires": true, "ensures": true, "assigns": true, "loop": true,
-	"invariant": true, "decreases": true, "unroll": true, "opt": true, "trusted": true, "let": true, "modifies": true, "ghost": true, "cases": true}
+	"invariant": true, "decreases": true, "unroll": true, "opt": true, "trusted": true, "let": true, "modifies": true, "ghost": true, "cases": true, "table": true, "key": true, "pred": true}
 
 // LoadContracts parses every verif_contracts*.go file of the loaded module packages.
 func LoadContracts(p *Program) *ContractDB {
@@ -252,6 +264,76 @@ func (db *ContractDB) parseLines(p *Program, pkgPath, file string, lines []strin
 			}
 			db.ByName[name] = cur
 			db.Order = append(db.Order, cur)
+		case "pred":
+			// pred name(a, b, c) = expr      (package-level contract macro)
+			eq := strings.Index(it.rest, "=")
+			lp := strings.Index(it.rest, "(")
+			rp := strings.Index(it.rest, ")")
+			if eq < 0 || lp < 0 || rp < lp || rp > eq {
+				db.errf("%s: bad pred %q", file, it.rest)
+				continue
+			}
+			pname := strings.TrimSpace(it.rest[:lp])
+			var params []string
+			for _, a := range strings.Split(it.rest[lp+1:rp], ",") {
+				if a = strings.TrimSpace(a); a != "" {
+					params = append(params, a)
+				}
+			}
+			cl, err := parseClause(strings.TrimSpace(it.rest[eq+1:]))
+			if err != nil {
+				db.errf("%s: pred %s: %v", file, pname, err)
+				continue
+			}
+			if db.Preds == nil {
+				db.Preds = map[string]*Pred{}
+			}
+			db.Preds[rel+"."+pname] = &Pred{Name: pname, Params: params, Body: cl}
+		case "table":
+			// table <dispatcher> <label>
+			f := strings.Fields(it.rest)
+			if len(f) != 2 {
+				db.errf("%s: table needs '<dispatcher> <label>'", file)
+				continue
+			}
+			name := rel + "." + f[0] + "@" + f[1]
+			fn := p.FindFunc(rel + "." + f[0])
+			cur = &FnContract{Name: name, Fn: fn, Opts: map[string]string{}, File: file, IsTable: true}
+			curLoop = nil
+			if fn == nil {
+				db.errf("%s: table contract for unknown dispatcher %s", file, f[0])
+			}
+			db.ByName[name] = cur
+			db.Order = append(db.Order, cur)
+		case "key":
+			// key <name> <type> <ranges: a,b..c,...>
+			if cur != nil {
+				f := strings.Fields(it.rest)
+				if len(f) < 3 {
+					db.errf("%s: %s: bad key clause", file, cur.Name)
+					continue
+				}
+				cur.KeyName, cur.KeyType = f[0], f[1]
+				for _, part := range strings.Split(strings.Join(f[2:], ""), ",") {
+					if part == "" {
+						continue
+					}
+					r := strings.SplitN(part, "..", 2)
+					lo, err1 := strconv.ParseInt(r[0], 0, 64)
+					hi := lo
+					var err2 error
+					if len(r) == 2 {
+						hi, err2 = strconv.ParseInt(r[1], 0, 64)
+					}
+					if err1 != nil || err2 != nil {
+						db.errf("%s: %s: bad key range %q", file, cur.Name, part)
+						continue
+					}
+					for k := lo; k <= hi; k++ {
+						cur.Keys = append(cur.Keys, k)
+					}
+				}
+			}
 		case "props":
 			if cur != nil {
 				cur.Props = append(cur.Props, strings.Fields(it.rest)...)
